@@ -45,6 +45,20 @@ OBLIGATIONS = [
              "share (real get_leases/_enumerate_leases/_read_lease_record over blanked slots), cancels exactly the expired ones in place, and the share is "
              "unlinked exactly when no unexpired lease remains - never while B is valid after A was cancelled",
         outside="extra-lease area (5th and later leases), container resizing (C23/C25/C29)"),
+    chx("immutable_cycle", "C26b_h", "h_immutable_cycle",
+        cases={"quick": [{"version": 2, "cutoff_mode": False, "n_min": 2, "n_max": 2, "_label": "v2-age-n2"},
+                         {"version": 1, "cutoff_mode": True, "n_min": 3, "n_max": 3, "_label": "v1-cutoff-n3"}],
+               "thorough": [{"version": v, "cutoff_mode": m, "_label": "v%d-%s" % (v, "cutoff" if m else "age")} for v in (1, 2) for m in (False, True)]},
+        timeout=T,
+        desc="LeaseCheckingCrawler.process_share on a real immutable ShareFile container (fake file system; real constructor, get_leases, cancel_lease called once "
+             "per expired lease on the one object opened for the share): 1-3 leases with symbolic expiries: the unexpired leases stay in order with the "
+             "right header count, and the share file is unlinked in this very cycle iff every lease expired",
+        outside="crash windows inside cancel_lease (C29)"),
+    chx("cutoff_date_tz", "C26_h", "h_cutoff_date_tz", timeout=T,
+        desc="expire.cutoff_date = 2009-01-16 read through the real config path and the REAL time_format.parse_date with the process time zone set to one of "
+             "UTC, US Pacific (with and without DST rules), UTC+9, UTC+5:30, UTC+13: the crawler's cutoff is 2009-01-16T00:00:00Z exactly, and a one-lease "
+             "share is deleted iff its renewal time is before that instant",
+        outside="other date strings / malformed dates (C48)"),
     chx("cycle_deletes_expired", "C26c_h", "h_cycle_deletes_expired",
         bounds={"quick": {"J": 30}, "thorough": {"J": 40}},
         cases={"quick": [{"layout": [["aa1", "aa2"], [], ["ac1"]], "_label": "L"}],
